@@ -201,11 +201,11 @@ CONFIG = {
         "served_ok (C03_filter_exact): a served descriptor may lack artifactType/annotations, but what it carries is the manifest's; a ReferrerLister source (remote repository: Referrers API response / referrers-tag index) serves complete referrer descriptors (artifactType = effective type, annotations = the manifest's) as the distribution spec requires -- the first filter does not fetch there. The harness registry serves such descriptors; generators keep descriptors consistent",
         "regular expressions are their MatchString function (str -> bool), quantified over; Go regexp is evaluated by the harness into the truth table the model receives",
         "encoding/json decoding of artifactType / config.mediaType / annotations is modelled as field selection (s_mat, s_mcfg, s_mann)",
-        "for a remote repository the source's predecessor relation is the referrers (subject) relation only (Repository.Predecessors = Referrers); HTTP, pagination (Link) and the tag-schema fallback are exercised through an in-memory registry, not modelled; errors of Predecessors/Fetch are not modelled (findRoots returns them unchanged)",
+        "for a remote repository the source's predecessor relation is the referrers (subject) relation only (Repository.Predecessors = Referrers); HTTP, pagination and the tag-schema fallback are exercised through an in-memory registry, not modelled (C15 models the page loop): the client's ReferrerListPageSize (unset / smaller / equal / larger), the registry's page cap, short pages with Link and server-side vs client-side artifactType filtering are drawn independently; a predecessor the source does not serve is reported (predecessors-missing); errors of Predecessors/Fetch are not modelled (findRoots returns them unchanged)",
         "media type case lists of FilterArtifactType / FilterAnnotation / fetchArtifactType are regenerated from extendedcopy.go (Generated/GC03.v); the value fetchArtifactType returns per case is hand-modelled and tied by correspondence",
     ],
     "level_text": "Coq theorems for every source graph, served predecessor order, start node, Depth and filter stack about a model of findRoots (stack DFS, visited set, depth-tagged frames), FilterArtifactType/FilterAnnotation (fetch-on-missing-field) and the ExtendedCopy wrapper: roots = tops of the upward closure and cover it (Depth<=0), two-sided depth bound, termination, filter exactness w.r.t. manifest content, end-to-end closure modulo C01's copy-closure hypothesis; tied to the code by hook-level differential runs (findRoots, opts.FindPredecessors, fetchArtifactType, ExtendedCopy) and an independent oracle on ExtendedCopy/ExtendedCopyGraph over memory, OCI (fresh and reopened), file and remote (Referrers API with pagination, referrers tag schema) sources",
     "level_note": "copy phase = hypothesis copy_closure_C01 (C01); remote sources through an in-memory read-only registry only; concurrency of the copy phase is exercised (Concurrency 0-4) but not modelled here; Docker manifests have no artifact type (effective type \"\")",
     "technique": "machine-checked proof in Coq (loop invariants of the stack DFS, for every served predecessor order) + model/implementation correspondence + independent oracle",
-    "explanation": "loop-invariant proofs over the DFS of findRoots for every served order; filter exactness by induction over the filter stack; model vs implementation on findRoots (hook), opts.FindPredecessors and fetchArtifactType for random DAGs x source kinds x descriptor styles; oracle from the generator's inverse edge list and manifest fields on findRoots, ExtendedCopyGraph and ExtendedCopy",
+    "explanation": "(thorough: 280 sampled cases re-evaluated inside Coq with vm_compute against the extracted runner) loop-invariant proofs over the DFS of findRoots for every served order; filter exactness by induction over the filter stack; model vs implementation on findRoots (hook), opts.FindPredecessors and fetchArtifactType for random DAGs x source kinds x descriptor styles; oracle from the generator's inverse edge list and manifest fields on findRoots, ExtendedCopyGraph and ExtendedCopy",
 }
